@@ -3,6 +3,7 @@
 package c02seg
 
 import (
+	"bytes"
 	"crypto/cipher"
 	"encoding/binary"
 	"errors"
@@ -11,6 +12,8 @@ import (
 )
 
 var errFailed = errors.New("failed to decrypt segment")
+
+var errTooLarge = errors.New("input stream is too large")
 
 type key struct {
 	aead   cipher.AEAD
@@ -201,6 +204,10 @@ func GoodLoop(in io.Reader, out *io.PipeWriter, fn procFn, size int) {
 			_ = out.CloseWithError(fmt.Errorf("segment %d: %w", seg, err))
 			return
 		}
+		if !done && seg == 1<<32-1 {
+			_ = out.CloseWithError(errTooLarge)
+			return
+		}
 		seg++
 	}
 	_ = out.Close()
@@ -236,6 +243,10 @@ func GoodSwitchLoop(src io.Reader, pw *io.PipeWriter, process procFn, size int) 
 		}
 		if final {
 			break
+		}
+		if idx >= 1<<32-1 {
+			pw.CloseWithError(errTooLarge)
+			return
 		}
 		buf[0] = buf[size]
 		have = 1
@@ -625,4 +636,270 @@ func GoodShortIsErrorSeg(k key, out io.Writer, data []byte, num uint32, last boo
 	}
 	_, err = out.Write(plain)
 	return err
+}
+
+// ---- counter range ---------------------------------------------------------
+
+// BadNoGuardLoop: uint32 counter without an overflow guard (wraps after 2^32 segments).
+func BadNoGuardLoop(src io.Reader, pw *io.PipeWriter, process procFn, size int) {
+	buf := make([]byte, size+1)
+	have := 0
+	var idx uint32
+	for {
+		var rerr error
+		for have < size+1 && rerr == nil {
+			var k int
+			k, rerr = src.Read(buf[have : size+1])
+			have += k
+		}
+		if rerr != nil && rerr != io.EOF {
+			pw.CloseWithError(rerr)
+			return
+		}
+		final := have <= size
+		n := have
+		if !final {
+			n = size
+		}
+		if perr := process(pw, buf[:n], idx, final); perr != nil {
+			pw.CloseWithError(perr)
+			return
+		}
+		if final {
+			break
+		}
+		idx++
+		buf[0] = buf[size]
+		have = 1
+	}
+	pw.Close()
+}
+
+// BadWideCounterLoop: 64-bit counter truncated at the call, no bound.
+func BadWideCounterLoop(src io.Reader, pw *io.PipeWriter, process procFn, size int) {
+	buf := make([]byte, size+1)
+	have := 0
+	var idx uint64
+	for {
+		var rerr error
+		for have < size+1 && rerr == nil {
+			var k int
+			k, rerr = src.Read(buf[have : size+1])
+			have += k
+		}
+		if rerr != nil && rerr != io.EOF {
+			pw.CloseWithError(rerr)
+			return
+		}
+		final := have <= size
+		n := have
+		if !final {
+			n = size
+		}
+		if perr := process(pw, buf[:n], uint32(idx), final); perr != nil {
+			pw.CloseWithError(perr)
+			return
+		}
+		if final {
+			break
+		}
+		idx++
+		buf[0] = buf[size]
+		have = 1
+	}
+	pw.Close()
+}
+
+// BadWideLateGuardLoop: the bound lets 2^32 itself through (truncates to 0).
+func BadWideLateGuardLoop(src io.Reader, pw *io.PipeWriter, process procFn, size int) {
+	buf := make([]byte, size+1)
+	have := 0
+	var idx uint64
+	for {
+		var rerr error
+		for have < size+1 && rerr == nil {
+			var k int
+			k, rerr = src.Read(buf[have : size+1])
+			have += k
+		}
+		if rerr != nil && rerr != io.EOF {
+			pw.CloseWithError(rerr)
+			return
+		}
+		final := have <= size
+		n := have
+		if !final {
+			n = size
+		}
+		if perr := process(pw, buf[:n], uint32(idx), final); perr != nil {
+			pw.CloseWithError(perr)
+			return
+		}
+		if final {
+			break
+		}
+		if idx > 1<<32-1 {
+			pw.CloseWithError(errTooLarge)
+			return
+		}
+		idx++
+		buf[0] = buf[size]
+		have = 1
+	}
+	pw.Close()
+}
+
+// GoodWideGuardLoop: 64-bit counter, bounded before the increment.
+func GoodWideGuardLoop(src io.Reader, pw *io.PipeWriter, process procFn, size int) {
+	buf := make([]byte, size+1)
+	have := 0
+	var idx uint64
+	for {
+		var rerr error
+		for have < size+1 && rerr == nil {
+			var k int
+			k, rerr = src.Read(buf[have : size+1])
+			have += k
+		}
+		if rerr != nil && rerr != io.EOF {
+			pw.CloseWithError(rerr)
+			return
+		}
+		final := have <= size
+		n := have
+		if !final {
+			n = size
+		}
+		if perr := process(pw, buf[:n], uint32(idx), final); perr != nil {
+			pw.CloseWithError(perr)
+			return
+		}
+		if final {
+			break
+		}
+		if idx+1 > 1<<32-1 {
+			pw.CloseWithError(errTooLarge)
+			return
+		}
+		idx++
+		buf[0] = buf[size]
+		have = 1
+	}
+	pw.Close()
+}
+
+// ---- header readers --------------------------------------------------------
+
+// GoodHeader: reads one line; a non-EOF error is returned even when the line is complete.
+func GoodHeader(in *io.Reader) (line []byte, err error) {
+	buf := make([]byte, 512)
+	defer func() { buf = nil }()
+	n, end := 0, -1
+	for end < 0 && err == nil {
+		var nn int
+		nn, err = (*in).Read(buf[n:])
+		n += nn
+		end = bytes.IndexByte(buf[:n], '\n')
+	}
+	if end < 0 {
+		return nil, errors.New("header not found")
+	}
+	if err != nil && !errors.Is(err, io.EOF) {
+		return nil, err
+	}
+	if n > end+1 {
+		extra := bytes.Clone(buf[end+1 : n])
+		*in = io.MultiReader(bytes.NewReader(extra), *in)
+	}
+	return bytes.Clone(buf[:end]), nil
+}
+
+// GoodDropAtEOFHeader: the exhausted source may be dropped.
+func GoodDropAtEOFHeader(in *io.Reader) ([]byte, error) {
+	buf := make([]byte, 512)
+	n, end := 0, -1
+	var err error
+	for end < 0 && err == nil {
+		var nn int
+		nn, err = (*in).Read(buf[n:])
+		n += nn
+		end = bytes.IndexByte(buf[:n], '\n')
+	}
+	if end < 0 {
+		return nil, errors.New("header not found")
+	}
+	switch {
+	case err == nil:
+		*in = io.MultiReader(bytes.NewReader(bytes.Clone(buf[end+1:n])), *in)
+	case err == io.EOF:
+		*in = bytes.NewReader(bytes.Clone(buf[end+1 : n]))
+	default:
+		return nil, fmt.Errorf("reading header: %w", err)
+	}
+	return bytes.Clone(buf[:end]), nil
+}
+
+// BadDropErrHeader: an error that arrives with the end of the line is forgotten.
+func BadDropErrHeader(in *io.Reader) (line []byte, err error) {
+	buf := make([]byte, 512)
+	defer func() { buf = nil }()
+	n, end := 0, -1
+	for end < 0 && err == nil {
+		var nn int
+		nn, err = (*in).Read(buf[n:])
+		n += nn
+		end = bytes.IndexByte(buf[:n], '\n')
+	}
+	if end < 0 {
+		return nil, errors.New("header not found")
+	}
+	if n > end+1 {
+		extra := bytes.Clone(buf[end+1 : n])
+		*in = io.MultiReader(bytes.NewReader(extra), *in)
+	}
+	return bytes.Clone(buf[:end]), nil
+}
+
+// BadDropSourceHeader: any error is taken for "source exhausted".
+func BadDropSourceHeader(in *io.Reader) ([]byte, error) {
+	buf := make([]byte, 512)
+	n, end := 0, -1
+	var err error
+	for end < 0 && err == nil {
+		var nn int
+		nn, err = (*in).Read(buf[n:])
+		n += nn
+		end = bytes.IndexByte(buf[:n], '\n')
+	}
+	if end < 0 {
+		return nil, errors.New("header not found")
+	}
+	extra := bytes.Clone(buf[end+1 : n])
+	if err != nil {
+		*in = bytes.NewReader(extra)
+	} else {
+		*in = io.MultiReader(bytes.NewReader(extra), *in)
+	}
+	return bytes.Clone(buf[:end]), nil
+}
+
+// BadAlwaysDropSourceHeader: errors are returned, but the source is dropped even when it has more to give.
+func BadAlwaysDropSourceHeader(in *io.Reader) ([]byte, error) {
+	buf := make([]byte, 512)
+	n, end := 0, -1
+	var err error
+	for end < 0 && err == nil {
+		var nn int
+		nn, err = (*in).Read(buf[n:])
+		n += nn
+		end = bytes.IndexByte(buf[:n], '\n')
+	}
+	if err != nil && err != io.EOF {
+		return nil, err
+	}
+	if end < 0 {
+		return nil, errors.New("header not found")
+	}
+	*in = bytes.NewReader(bytes.Clone(buf[end+1 : n]))
+	return bytes.Clone(buf[:end]), nil
 }
